@@ -510,6 +510,8 @@ struct ModelRunner : public CommandRunner {
     };
     vector<string> outs = st->AllOuts();
     outs.insert(outs.end(), st->ddo.begin(), st->ddo.end());
+    // commands write their outputs in any order: statements with an even number write the last one first
+    if (st->id % 2 == 0) std::reverse(outs.begin(), outs.end());
     if (!fails) {
       for (auto& o : outs) {
         string c = r.content;
